@@ -296,14 +296,14 @@ func drawSched(cfg *Cfg, rng *simsched.Rand) {
 }
 
 func init() {
-	probeNames["C02"] = []string{"reader_spans_writer_step", "reader_begin_concurrent_with_commit", "commit_ok", "tx_aborted", "commit_waited_for_reader", "remap_at_commit", "reader_blocked_on_pending", "checkpoint_copy_with_reader"}
+	probeNames["C02"] = []string{"reader_spans_writer_step", "reader_begin_concurrent_with_commit", "commit_ok", "tx_aborted", "commit_waited_for_reader", "remap_at_commit", "reader_blocked_on_pending", "checkpoint_with_wal_entries", "rollback_after_flush"}
 	register(&PropDef{
 		ID: "C02", Level: "exploration", QuickSec: 55, ThoroSec: 1200,
 		Rule: "each run = one writer task executing a seeded txops history (incl. Flush before commit, CheckpointWAL, frees, rollbacks, unbounded files growing past the 64KiB mapping) and 1-3 reader tasks each taking several read snapshots (two full passes over all candidate pages with yields between single page reads); the PRNG scheduler interleaves at every txfile hook (before/after pending, before/after exclusive, after switch, tx close, begin) and every simulated disk call. Oracle: each snapshot equals exactly one committed model state inside the window given by global event sequence numbers of Begin and Commit, in both passes. Non-trivial = run in which a reader was alive across at least one writer commit step; distinct = hash of the (task, yield point) sequence.",
 		Real: defaultReal, Stub: defaultStub, Assume: defaultAssume,
 		Body: c02Body,
 	})
-	probeNames["C09"] = []string{"commit_ok", "tx_aborted", "commit_failed", "readers_overlap_writer", "writer_waited", "closer_ran", "open_time_maxsize_update", "reader_spans_writer_step"}
+	probeNames["C09"] = []string{"commit_ok", "tx_aborted", "commit_failed", "readers_overlap_writer", "commit_waited_for_reader", "reader_blocked_on_pending", "closer_ran", "open_time_maxsize_update", "reader_spans_writer_step"}
 	register(&PropDef{
 		ID: "C09", Level: "exploration", QuickSec: 55, ThoroSec: 1200,
 		Rule: "each run = 0-4 reader tasks, 1-3 writer tasks (each ending transactions by commit/rollback/close/failing commit from out-of-space) and optionally a closer task invoking File.Close once every Begin has returned, optionally preceded by an open with FlagUpdMaxSize (grow/shrink/unbounded, prealloc) that runs internal transactions; the PRNG scheduler interleaves at every hook and disk call. Oracles: at most one write transaction active; scheduler never reaches 'unfinished tasks, nothing runnable' (deadlock) nor the step budget; whenever no transaction is open the lock state is idle (shared=0, pending clear, reserved free), also right after Open. Non-trivial = run with at least one context switch between two transaction tasks while both had a transaction open or pending; distinct = hash of the (task, yield point) sequence.",
@@ -395,7 +395,23 @@ func c02Body(e *Env) {
 	e.Res.Nontrivial = e.Res.Probes["reader_spans_writer_step"] > 0
 }
 
+// lockProbes derives lock related reach probes from the schedule trace.
+func lockProbes(e *Env) {
+	for _, st := range e.S.Trace {
+		if st.Point != "cond:wake" {
+			continue
+		}
+		switch {
+		case len(st.Task) > 0 && st.Task[0] == 'w':
+			e.Probe("commit_waited_for_reader") // a writer task woke up from waiting on the exclusive lock
+		case len(st.Task) > 0 && st.Task[0] == 'r':
+			e.Probe("reader_blocked_on_pending") // a reader task woke up from waiting for the pending lock
+		}
+	}
+}
+
 func c02Probes(e *Env, r *Runner) {
+	lockProbes(e)
 	n := 0
 	for _, op := range r.D.Log {
 		if op.Kind.String() == "mmap" {
@@ -581,5 +597,6 @@ func c09Body(e *Env) {
 	if !e.Failed() && r.F != nil {
 		r.Close()
 	}
+	lockProbes(e)
 	e.NontrivialIf = func(res *Result) bool { return res.Switches > 4 && (cfg.Readers+cfg.Writers) > 1 }
 }
